@@ -21,7 +21,7 @@
    walker reported), so it does not appear at this layer. *)
 From Coq Require Import List NArith Bool Sorting.Sorted.
 From FS Require Import Sx Model.Path Model.Stat Model.Diff Model.AbsDest
-  Proofs.DiffP Proofs.AbsDestP Proofs.ReceiveP.
+  Proofs.DiffP Proofs.DiffSpecP Proofs.AbsDestP Proofs.ReceiveP.
 Import ListNotations.
 Open Scope N_scope.
 
@@ -118,7 +118,22 @@ Proof.
   intros sa ba sb bb _ _ _ Hs. discriminate.
 Qed.
 
+(* The executable specification that the correspondence run evaluates on the change list of
+   the IMPLEMENTATION (Diff.diff_spec_b: set-based, never looks at the loop) is exactly the
+   predicate of diff_changes_exact together with "no path twice". *)
+Theorem oracle_is_specification : forall flt d A B out,
+  sorted A -> sorted B ->
+  (diff_spec_b flt d A B out = true <->
+   (forall c, In c out <-> spec_change flt d A B c) /\ NoDup (map ch_path out)).
+Proof. intros flt d A B out HsA HsB. exact (diff_spec_b_iff flt d A B HsA HsB out). Qed.
+
+(* ... and so is the executable well-formedness test applied to the generated listings. *)
+Theorem listing_ok_is_wf : forall L, listing_ok_b L = true <-> wf_listing L.
+Proof. exact listing_ok_b_iff. Qed.
+
 Print Assumptions diff_fuel_enough.
+Print Assumptions oracle_is_specification.
+Print Assumptions listing_ok_is_wf.
 Print Assumptions same_file_is_identity.
 Print Assumptions diff_changes_exact.
 Print Assumptions diff_sorted_nodup.
